@@ -52,7 +52,7 @@ CLASSES = {
 }
 CLASS_NAMES = list(CLASSES)
 
-EXTRAS = ["named_ineq", "user_eq", "lmi_sym", "lmi_nonsym", "lmi_two", "lmi_unsent", "partition1", "partition2",
+EXTRAS = ["named_ineq", "user_eq", "lmi_sym", "lmi_nonsym", "lmi_two", "lmi_unsent", "lmi_cross", "partition1", "partition2",
           "fn_constraint", "fn_lmi", "fn_lmi_two", "noise", "unused_lmi_class", "same_constraint_twice", "const_metric", "two_metrics", "second_function", "dup_eval"]
 
 
@@ -280,6 +280,11 @@ def build(spec):
             c.lmis["_unsent"] = PSDMatrix([[d0, 1], [1, 5]])      # created, never added
             c.lmis["lmi_sym"] = p.add_psd_matrix([[dn, e], [e, 1]])
             p.set_performance_metric(e + 0.25)
+        elif ex == "lmi_cross":
+            # a redundant Cauchy-Schwarz LMI whose off-diagonal entry is made of inner products of DIFFERENT leaf points
+            a = x0 if ref is None else x0 - ref
+            b = g0 if g0 is not None else x
+            c.lmis["lmi_cross"] = p.add_psd_matrix([[a ** 2, a * b], [a * b, b ** 2]])
         elif ex in ("partition1", "partition2"):
             d = 1 if ex == "partition1" else 2
             part = p.declare_block_partition(d=d)
